@@ -48,6 +48,26 @@ theorem failure_keeps_target (i : Input) (fs : Fs) (stdout : Bytes) (h : Coheren
     simp [h1, hc, hr, EXIT_SUCCESS]
   · simp [h1, applyOps, applyOp]
 
+/-- The same under file-system faults (repaired in /repo, 9bb5b43: a failed copy of the script's stdout used to fall
+into the "no output" branch and REMOVE the previous target): whether or not `File::create($3)` or `rename($3, $1)`
+fails, a failing command performs no write to the target and leaves no temporary file. -/
+theorem failure_keeps_target_under_faults (i : Input) (fs : Fs) (stdout : Bytes)
+    (ht : i.tmpExists = fs.tmp.isSome) (hf : (decide i).rv ≠ 0) :
+    (applyOps stdout i.renameFails fs (decide i).ops).target = fs.target ∧
+    (applyOps stdout i.renameFails fs (decide i).ops).tmp = none := by
+  unfold RedoModel.Commit.decide at hf ⊢
+  by_cases h1 : rv1 i = EXIT_SUCCESS
+  · cases hcf : i.createFails <;> cases hrf : i.renameFails <;> cases hte : i.tmpExists <;>
+      by_cases hsz : i.stdoutSize > 0 <;>
+      simp [h1, hcf, hrf, hte, hsz, EXIT_SUCCESS, EXIT_BUILD_JOB_ERROR, applyOps, applyOp] at hf ⊢
+  · simp [h1, applyOps, applyOp]
+
+/-- The fault that used to delete the target: the script succeeded with output on stdout, `$3` cannot be created. -/
+example : let i : Input := { before := some ⟨false, 1⟩, after := some ⟨false, 1⟩, stdoutSize := 4, tmpExists := false, rv := 0, createFails := true }
+    (decide i).rv = EXIT_BUILD_JOB_ERROR ∧ FsOp.unlinkTarget ∉ (decide i).ops ∧
+    (applyOps [1] false ⟨some [7], none⟩ (decide i).ops).target = some [7] := by
+  decide
+
 /-- On success the target becomes exactly the script's output: stdout if that is non-empty
 and there is no `$3`; the `$3` file if there is one; and it is removed if there is neither. -/
 theorem exact_output (i : Input) (fs : Fs) (stdout : Bytes) (h : Coherent i fs stdout)
